@@ -1,7 +1,13 @@
 import TypifyModel.Proofs.C02
+import TypifyModel.Proofs.Tagging
 open TypifyModel.C02 TypifyModel.Conv
 #print axioms struct_accepts
 #print axioms variant_accepts
 #print axioms dflt_ne_reject
 #print axioms convD_accepts
 #print axioms conv_accepts
+#print axioms TypifyModel.Tagging.intTag_sound
+#print axioms TypifyModel.Tagging.internal_panics_only_on_assert
+#print axioms TypifyModel.Tagging.external_names_nodup
+#print axioms TypifyModel.Tagging.tagged_branches_exclusive
+#print axioms TypifyModel.Tagging.adjacent_sound
